@@ -219,6 +219,7 @@ func newRaftMonitor(s *Sim, viol func(sig, format string, a ...interface{})) *ra
 	m := &raftMonitor{s: s, applied: map[string]uint64{}, appliedBy: map[string]string{}, lastIdx: map[string]uint64{}, leaders: map[string]uint64{},
 		durable: map[string]*durableSample{}, viol: viol, injected: map[int]bool{}, epoch: map[string]int{}}
 	s.onApply = m.onApply
+	s.onApplySync = m.onApplySync
 	s.onRaftMsg = m.onRaftMsg
 	s.onIO = m.onIO
 	return m
@@ -264,6 +265,26 @@ func (m *raftMonitor) onApply(a applyRec) {
 		}
 	}
 	m.lastIdx[nk] = a.index
+}
+
+// onApplySync runs on the replica's own apply goroutine at the instant it hands
+// an entry to the state machine: persist, then apply and acknowledge - the
+// entry must already be in the node's durable log (read through a fresh store
+// instance, i.e. what would survive a crash at this instant), or be covered by
+// its snapshot.
+func (m *raftMonitor) onApplySync(n *simNode, group uuid.UUID, index uint64) {
+	w := wal.NewBadgerWAL(n.parts.DB, group)
+	last, err := w.LastIndex()
+	if err != nil {
+		return
+	}
+	m.s.out.Stat("applies_checked_against_durable_log", 1)
+	if last < index {
+		idx := n.idx
+		m.s.post(func() {
+			m.viol("persist-before-apply/applied-before-durable/"+gname(m.s, group), "group %s: n%d applies index %d while its durable log ends at %d (a crash at this instant loses an entry whose outcome is being acknowledged)", shortG(group), idx, index, last)
+		})
+	}
 }
 
 // durableOf reads what the node's log store holds for a group through a
@@ -691,6 +712,15 @@ func (r *W3Run) execOps() {
 				if r.firstPermanentCrash == 0 {
 					r.firstPermanentCrash = s.stamp()
 				}
+			}
+		case "crashat":
+			// arm a crash of the node at its N-th next durable-write boundary side (odd: just
+			// before the write, even: just after it)
+			if op.Node >= 1 && op.Node <= len(s.nodes) && s.nodes[op.Node-1].alive && op.N > 0 {
+				n := s.nodes[op.Node-1]
+				n.crashAt = 2*n.hookHit + op.N
+				s.logf("n%d will crash at durable-write boundary position +%d", n.idx, op.N)
+				s.out.Stat("crash_points_armed", 1)
 			}
 		case "restart":
 			if op.Node >= 1 && op.Node <= len(s.nodes) && !s.nodes[op.Node-1].alive {
